@@ -319,8 +319,8 @@ func NonMembers(n *model.Node) []jv.V {
 		switch m.K {
 		case jv.Str:
 			cands = append(cands, jv.StrV(m.S+" "), jv.StrV(strings.ToUpper(m.S)), jv.StrV(strings.ToLower(m.S)), jv.StrV(" "+m.S), jv.StrV(m.S+"x"))
-			if len(m.S) > 0 {
-				cands = append(cands, jv.StrV(m.S[:len(m.S)-1]))
+			if rs := []rune(m.S); len(rs) > 0 {
+				cands = append(cands, jv.StrV(string(rs[:len(rs)-1])))
 			}
 			if _, err := jv.Parse([]byte(m.S)); err == nil {
 				if v, err := jv.Parse([]byte(m.S)); err == nil && v.K != jv.Str && v.K != jv.Arr && v.K != jv.Obj && v.K != jv.Null {
